@@ -218,13 +218,15 @@ Proof.
     + destruct (take_once n cs) as [[b r]|]; [apply IH|discriminate].
 Qed.
 
-(* every allocation requested along any path is bounded by lim *)
+(* every allocation requested along any path is bounded by lim; a full read of n bytes hands exactly
+   n bytes to its continuation, a single read at most n *)
 Inductive alloc_bounded {A} (lim : N) : prog A -> Prop :=
 | ab_ret a : alloc_bounded lim (Ret a)
 | ab_fail : alloc_bounded lim Fail
 | ab_crash : alloc_bounded lim Crash
 | ab_alloc n k : (n <= lim)%N -> alloc_bounded lim k -> alloc_bounded lim (Alloc n k)
-| ab_read full n k : (forall bs, alloc_bounded lim (k bs)) -> alloc_bounded lim (Read full n k).
+| ab_read_full n k : (forall bs, length bs = n -> alloc_bounded lim (k bs)) -> alloc_bounded lim (Read true n k)
+| ab_read_once n k : (forall bs, length bs <= n -> alloc_bounded lim (k bs)) -> alloc_bounded lim (Read false n k).
 
 Lemma alloc_bounded_bind {A B} lim (p : prog A) (f : A -> prog B) :
   alloc_bounded lim p -> (forall a, alloc_bounded lim (f a)) -> alloc_bounded lim (bind p f).
